@@ -396,7 +396,12 @@ impl Runner {
                 self.add_violation(sig, msg, json!({"phase": phase, "tape": hex::encode(tape), "index": index}));
             }
             Err(Stop::Discard(w)) => println!("replay: case discarded ({w})"),
-            _ => println!("replay: case passes"),
+            _ => {
+                println!("replay: case passes");
+                if let Some(s) = sample {
+                    println!("replay: case = {s}");
+                }
+            }
         }
         self.stats.evaluations += 1;
     }
